@@ -16,7 +16,7 @@ def _all(f):
     return True
 
 
-prop("C03", ["take_range", "sort_take", "limit_clause", "flatten_sort", "sort_infer"],
+prop("C03", ["take_range", "sort_take", "limit_clause", "flatten_sort", "sort_infer", "lower_transform"],
      not_covered="alias_last_sorting and CidRedirector::redirect_sorts (how the sorting is re-expressed across cid redirects: folds over PQ with HashMap state); the driver loops of the sort inference (its step and the CTE record are under contract), "
                  "ensure_names for sort columns; the recursion of Flattener::fold_expr itself (the arms are proved against its contract)")
 
@@ -42,7 +42,7 @@ claim("C03",
       "take when there is one and the inherited sorting otherwise (sort_take ST1-3), the emitted OFFSET / LIMIT / FETCH carry exactly those numbers and the "
       "ORDER BY list is kept in order (limit_clause LC2, LC2l, LC5), empty selections are encoded as LIMIT 0 and never as a "
       "negative limit (TR3o), no arithmetic panic (checked composition), and validate_take_range accepts exactly positive integer "
-      "bounds (TR4). the SQL side of sort persistence, per step: every arm of SortingInference::fold_sql_transforms and the record of a CTE's sorting (sort_infer SI0-8, CS1-2; the driver loops, alias_last_sorting and the cid redirection are NOT under contract). NOT proved: the end-to-end sentence of C03.",
+      "bounds (TR4). the SQL side of sort persistence, per step: every arm of SortingInference::fold_sql_transforms and the record of a CTE's sorting (sort_infer SI0-8, CS1-2; the driver loops, alias_last_sorting and the cid redirection are NOT under contract). lowering turns a `take` call into Take { range, partition = the call's partition, sort = the call's sort } and a `sort` call into Sort of the lowered keys (lower_transform LT1, LT6). NOT proved: the end-to-end sentence of C03.",
       "Trusted: unpack_as_int_literal / bound_as_int by contract (enum_as_inner accessors), Option::transpose/zip and Ord::min by "
       "assume_specification, that the database implements OFFSET/LIMIT; the slice drops the rest of translate_select_pipeline.")
 
@@ -72,7 +72,7 @@ claim("C02",
       "Oracle = SQLite's documented precedence table (the executable grammar here). translate_expr is external (uninterpreted result, "
       "Context state not modelled); sqlparser enums are mechanically generated skeletons; sqlparser's Display is trusted to print trees as written.")
 
-prop("C01", ["split_order", "take_range", "operator_tpl", "vec_utils", "group_take", "flatten_sort", "sort_take", "sort_infer", "setop_pairs"],
+prop("C01", ["split_order", "take_range", "operator_tpl", "vec_utils", "group_take", "flatten_sort", "sort_take", "sort_infer", "setop_pairs", "lower_transform"],
      not_covered="anchor_split cid redirection, preprocess (distinct/union recognition), lowering, flattening, the other pluck call sites of translate_select_pipeline (select / sort / take / join): hash-map threaded folds over three "
                  "IRs; a violation there is invisible to these contracts")
 claim("C01",
@@ -88,7 +88,7 @@ claim("C01",
       "left behind or lost (vec_utils WH1-4), on top of full contracts for the two helpers it uses - Vec::pluck is a stable partition by a fallible conversion "
       "(PL1-2, loop invariant PLI, any length) and Vec::break_up cuts at the first match (BU1-3); a grouped take becomes DISTINCT only for `take 1` without an order "
       "over a key that is the whole row, DISTINCT ON only for `take 1`, and otherwise a ROW_NUMBER() filter whose condition holds exactly for the positions kept "
-      "(group_take DT1-4, RN1). the SQL back end's sort inference, one step per transform: FROM a CTE starts with the sorting recorded for it and leaves the record for its other consumers, Sort replaces it, Distinct / Aggregate clear it, Join keeps it unless it served a DISTINCT ON, Take / DISTINCT ON emit the ORDER BY in front of themselves, Select / Filter keep it; the record of a CTE is the sorting its pipeline ended with (sort_infer SI0-8, CS1-2); building a join call keeps the Flattener's sort (flatten_sort FT3). a join is replaced by EXCEPT / INTERSECT only if its condition is nothing but equalities (collect_equals, recursive, CE1-2) that pair top[i] with bottom[i] for every i and nothing else (equal_by_position, loop invariant EP1-3; recognition slices XR1-3, IR1-2). "
+      "(group_take DT1-4, RN1). the SQL back end's sort inference, one step per transform: FROM a CTE starts with the sorting recorded for it and leaves the record for its other consumers, Sort replaces it, Distinct / Aggregate clear it, Join keeps it unless it served a DISTINCT ON, Take / DISTINCT ON emit the ORDER BY in front of themselves, Select / Filter keep it; the record of a CTE is the sorting its pipeline ended with (sort_infer SI0-8, CS1-2); building a join call keeps the Flattener's sort (flatten_sort FT3). a join is replaced by EXCEPT / INTERSECT only if its condition is nothing but equalities (collect_equals, recursive, CE1-2) that pair top[i] with bottom[i] for every i and nothing else (equal_by_position, loop invariant EP1-3; recognition slices XR1-3, IR1-2). each PL transform call is lowered to the RQ transform of the same name over the lowered operands, appending nothing else but Computes and changing nothing already lowered (lower_transform LT0-9). "
       "NOT proved: the end-to-end sentence of C01 (semantic preservation of the whole compiler).",
       "Oracle: SQL's logical clause order. HashSet<String>, strum AsRefStr, contains_any, the filter/fold in can_materialize and "
       "infer_complexity_expr are trusted by contract; split_off_back's loop and anchor_split are not under contract.")
@@ -99,8 +99,8 @@ def _c04_split(name):
             or lab == "SO1.Take.Compute" or lab.endswith(".safety"))
 
 
-prop("C04", ["window_frame", "split_order", "lower_cols", "group_take"], select={"split_order": _c04_split, "lower_cols": lambda n: n.split(".", 1)[1] in ("DC5", "DC6") or n.endswith(".safety")},
-     not_covered="how Lowerer.window is set from partition / sort / frame (lower_pipeline over the flattened transforms), row-count preservation, the window of the ROW_NUMBER() column")
+prop("C04", ["window_frame", "split_order", "lower_cols", "group_take", "lower_transform"], select={"split_order": _c04_split, "lower_cols": lambda n: n.split(".", 1)[1] in ("DC5", "DC6") or n.endswith(".safety")},
+     not_covered="how the Flattener fills partition / sort / frame of a transform call from the enclosing group / sort / window (its Group / Sort arms are under contract in flatten_sort, the Window arm is not), row-count preservation, the window of the ROW_NUMBER() column")
 claim("C04",
       "PARTIAL. Proved on the real code, for all inputs: the window transform maps expanding / rolling:n / rows / range to exactly the documented "
       "(kind, start, end) with rolling:n = rows:(1-n)..0 and no overflow (WF1a-e); bound sign -> n PRECEDING / CURRENT ROW / n FOLLOWING, open "
@@ -110,7 +110,7 @@ claim("C04",
       "never shares a SELECT with a preceding compute unless it is a HAVING, and reorder() never hoists a windowed compute over a take "
       "(split_order IC1, CM1, SO1c, RO1); an expression that needs a window always becomes a Compute of its own carrying the Lowerer's current window, and an "
       "expression that does not carries none (lower_cols DC5-6); `take a..b` inside a group is DISTINCT / DISTINCT ON only when exactly the first row is kept and "
-      "otherwise a filter on ROW_NUMBER() that holds exactly for positions a..b (group_take DT1-4, RN1). NOT proved: how the current window is computed from partition / sort / frame, row-count preservation.",
+      "otherwise a filter on ROW_NUMBER() that holds exactly for positions a..b (group_take DT1-4, RN1). the Lowerer's current window while the columns of a derive / select are declared is exactly the transform call's window - frame kind and lowered bounds, the declared partition columns, the lowered sort - aggregated columns are declared with no window, and no window is left in effect after the transform; `take` gets the call's partition and sort (lower_transform LT1-4, LT9: the whole `match` of lower_pipeline over the transform kinds, with a ghost log of the declarations). NOT proved: how the Flattener fills partition / sort / frame of a call from the enclosing window transform, row-count preservation.",
       "Flattener::fold_expr is external (ghost log of (expression, frame in effect)); slices drop the rest of resolve_special_func / "
       "translate_windowed; unpack_as_int_literal and sqlparser value construction are trusted by contract.")
 
@@ -231,7 +231,7 @@ def _safety(name):
 
 
 _ALL_UNITS = ["take_range", "sort_take", "split_order", "window_frame", "dialect_select", "ident_quote", "ids_names", "toposort", "rq_tables",
-              "select_shape", "span_units", "sql_prec", "prql_prec", "literals", "set_ops", "desugar", "resolve_guards", "lex_strings", "limit_clause", "static_eval", "operator_tpl", "rel_names", "lower_cols", "vec_utils", "group_take", "flatten_sort", "star_exclude", "std_arity", "limit_select", "rq_shape", "star_cols", "func_env", "json_lits", "cte_define", "type_meet", "fmt_strings", "concat_ops", "sstring_query", "sstring_cols", "lineage_except", "sort_infer", "setop_pairs", "setops_reach", "tuple_unpack", "resolver_unwraps", "name_lookup", "frame_decls", "select_cols"]
+              "select_shape", "span_units", "sql_prec", "prql_prec", "literals", "set_ops", "desugar", "resolve_guards", "lex_strings", "limit_clause", "static_eval", "operator_tpl", "rel_names", "lower_cols", "vec_utils", "group_take", "flatten_sort", "star_exclude", "std_arity", "limit_select", "rq_shape", "star_cols", "func_env", "json_lits", "cte_define", "type_meet", "fmt_strings", "concat_ops", "sstring_query", "sstring_cols", "lineage_except", "sort_infer", "setop_pairs", "setops_reach", "tuple_unpack", "resolver_unwraps", "name_lookup", "frame_decls", "select_cols", "lower_transform"]
 
 
 def _c12_split_order(n):
